@@ -481,7 +481,35 @@ def run_driver(exe, args, lines, timeout=600, per_case_restart=True, extra_env=N
         restarts += 1
         if restarts > 50:
             break
+    # A driver that died WITHOUT any diagnostic (no sanitizer report, no assertion message: e.g. killed from outside, or its
+    # per-case watchdog fired on an overloaded machine) is re-run once on the blamed case together with the 200 cases before
+    # it, in a fresh process.  A crash that belongs to the library reproduces (same input, same process history) and stays
+    # a crash; one that does not reproduce is recorded in TRANSIENT and the answer of the re-run is used.
+    if 0 < len(crashes) <= 5:
+        kept = []
+        for (k, se, rc) in crashes:
+            diagnostic = re.search(r"Sanitizer|runtime error|Assertion|assert|SUMMARY|heap-|stack-|SEGV", se or "")
+            if diagnostic or k >= len(lines):
+                kept.append((k, se, rc)); continue
+            lo = max(0, k - 200)
+            try:
+                p = subprocess.run([exe] + args, input="\n".join(lines[lo:k + 1]) + "\n", env=env, timeout=timeout,
+                                   stdout=subprocess.PIPE, stderr=subprocess.PIPE, text=True, errors="replace")
+                got = p.stdout.split("\n")
+                if got and got[-1] == "":
+                    got.pop()
+                if len(got) == k + 1 - lo and got[:-1] == [o for o in outs[lo:k]]:
+                    outs[k] = got[-1]
+                    TRANSIENT.append("%s: case #%d died without diagnostic (rc %s) and did not reproduce in a fresh process" % (os.path.basename(exe), k, rc))
+                    continue
+            except subprocess.TimeoutExpired:
+                pass
+            kept.append((k, se, rc))
+        crashes = kept
     return outs, crashes, leak_reports
+
+
+TRANSIENT = []
 
 
 def compare_outputs(G, cases, couts, mouts, crashes):
